@@ -13,7 +13,7 @@ import types
 ROOT = os.path.dirname(os.path.dirname(os.path.abspath(__file__)))
 sys.path.insert(0, ROOT)
 STATS = {}
-MODS = ["contracts.options", "contracts.inventory", "contracts.warnings", "contracts.slug", "contracts.directives", "contracts.parse_html", "contracts.invreader"]
+MODS = ["contracts.options", "contracts.inventory", "contracts.warnings", "contracts.slug", "contracts.directives", "contracts.parse_html", "contracts.invreader", "contracts.lines"]
 
 
 def _wrap(target, fn, funcheck, fs):
@@ -79,8 +79,8 @@ def pytest_configure(config):
 
     funcheck.load_contracts(MODS)
     for target, fs in list(REG.funs.items()):
-        if target.startswith("ext:") or fs.trusted:
-            continue
+        if target.startswith("ext:") or fs.trusted or getattr(fs, "until", None):
+            continue  # (a prefix contract says nothing about the function's return)
         try:
             modn, qual = target.split(":")
             mod = importlib.import_module(modn)
@@ -92,7 +92,13 @@ def pytest_configure(config):
             if isinstance(raw, (staticmethod, classmethod, property)) or raw is None:
                 continue
             fn = getattr(raw, "__wrapped__", raw) if hasattr(raw, "cache_info") else raw
-            setattr(owner, parts[-1], _wrap(target, fn, funcheck, fs))
+            w = _wrap(target, fn, funcheck, fs)
+            setattr(owner, parts[-1], w)
+            if not isinstance(owner, type):
+                # `from module import f` in other modules of the package bound the function earlier: rebind those too
+                for mname, m2 in list(sys.modules.items()):
+                    if mname.startswith("myst_parser") and m2 is not None and m2 is not owner and m2.__dict__.get(parts[-1]) is raw:
+                        setattr(m2, parts[-1], w)
         except Exception as exc:  # noqa: BLE001
             STATS[target] = {"calls": 0, "pre_held": 0, "checked": 0, "fired": [], "not_wrapped": repr(exc)[:100]}
 
